@@ -2153,7 +2153,7 @@ func init() {
 			NotDecided:  []string{"that the body decodes back to the value; JSONP framing bytes", "which status wins when a helper is called after the commit (C08)"},
 			Assumptions: []string{"goutil httpctype constants are the documented content types"},
 		},
-		Rules: []ruleFn{{"C19-STATUS", ruleC19Status}, {"C19-CTYPE", ruleC19CType}, {"C19-NOOVERRIDE", ruleC19NoOverride}, {"C19-ARMS", ruleC19Arms}, {"C19-ERR", ruleC19Err}, {"C19-JSONP", ruleC19JSONP}, {"C19-STREAM", ruleC19Stream}, {"C03-POOL", ruleC03Pool}, {"C08-LATCH", ruleC08Latch}, {"C08-PRECOMMIT", ruleC08Precommit}},
+		Rules: []ruleFn{{"C19-STATUS", ruleC19Status}, {"C19-CTYPE", ruleC19CType}, {"C19-NOOVERRIDE", ruleC19NoOverride}, {"C19-ARMS", ruleC19Arms}, {"C19-ERR", ruleC19Err}, {"C19-JSONP", ruleC19JSONP}, {"C19-STREAM", ruleC19Stream}, {"C19-LENGTH", ruleC19Length}, {"C03-POOL", ruleC03Pool}, {"C08-LATCH", ruleC08Latch}, {"C08-PRECOMMIT", ruleC08Precommit}},
 	})
 	register(&property{
 		Meta: propertyMeta{
@@ -2293,7 +2293,10 @@ func ruleC19Stream(r *Run) {
 
 const streamFixture = `package rux
 
-import "io"
+import (
+	"io"
+	"strconv"
+)
 
 // zzVerifStream* exist only in the overlay of the C19 run (C19-STREAM fixture).
 func zzVerifStreamErrFirst(w io.Writer, r io.Reader) error {
@@ -2332,7 +2335,109 @@ func zzVerifStreamDataFirst(w io.Writer, r io.Reader) error {
 		}
 	}
 }
+
+type zzVerifSized interface {
+	io.Reader
+	Size() int64
+}
+
+// C19-LENGTH fixture: a length announced from something other than the bytes in hand / the bytes themselves
+func zzVerifLenFromSize(c *Context, r zzVerifSized) {
+	c.Resp.Header().Set("Content-Length", strconv.FormatInt(r.Size(), 10))
+	_, _ = io.Copy(c.Resp, r)
+}
+
+func zzVerifLenOfData(c *Context, data []byte) {
+	c.Resp.Header().Set("Content-Length", strconv.Itoa(len(data)))
+	_, _ = c.Resp.Write(data)
+}
 `
+
+// C19-LENGTH: "a body that decodes back to what was passed" fails on the wire when the helper announces a
+// Content-Length that is not the number of bytes it goes on to write: net/http closes the connection on a short
+// body and refuses the excess of a long one. The response helpers announce no length today (net/http computes it or
+// uses chunked encoding). The rule: a store of the Content-Length header in the root package or pkg/render
+// (Header().Set/Add, a header map update, Context.SetHeader) takes its value from len() of a value, and from nothing
+// else — Size() of a reader is the total size and not what is left to read, Stat().Size() can be stale.
+func ruleC19Length(r *Run) {
+	w := r.W
+	rule := "C19-LENGTH"
+	setHeader := w.FnOpt("rux", "Context.SetHeader")
+	modPath := pkgPath("rux")
+	check := func(f *ssa.Function) (n int, bad string, badPos token.Pos) {
+		eachInstr(f, func(in ssa.Instruction) {
+			var key, val ssa.Value
+			switch x := in.(type) {
+			case *ssa.Call:
+				nm := calleeName(x)
+				switch {
+				case (nm == "(net/http.Header).Set" || nm == "(net/http.Header).Add") && len(x.Call.Args) == 3:
+					key, val = x.Call.Args[1], x.Call.Args[2]
+				case setHeader != nil && staticCallee(x) == setHeader && len(x.Call.Args) == 3:
+					key, val = x.Call.Args[1], x.Call.Args[2]
+				}
+			case *ssa.MapUpdate:
+				key, val = x.Key, x.Value
+			}
+			if key == nil {
+				return
+			}
+			k, ok := constString(key)
+			if !ok || !strings.EqualFold(k, "Content-Length") {
+				return
+			}
+			n++
+			fromLen := flowsFromDeep(val, func(y ssa.Value) bool {
+				c, isC := y.(*ssa.Call)
+				return isC && isBuiltin(c, "len")
+			})
+			other := flowsFromDeep(val, func(y ssa.Value) bool {
+				c, isC := y.(*ssa.Call)
+				if !isC || isBuiltin(c, "len") {
+					return false
+				}
+				nm := calleeName(c)
+				return !strings.HasPrefix(nm, "strconv.") && !strings.HasPrefix(nm, "fmt.")
+			})
+			if (!fromLen || other) && bad == "" {
+				bad, badPos = "the Content-Length header is set from something other than len() of the bytes being written", w.InstrPos(in)
+			}
+		})
+		return
+	}
+	total := 0
+	for _, f := range w.Funcs {
+		if strings.Contains(w.Fset.Position(f.Pos()).Filename, "zz_verif_stream_fixture") {
+			continue
+		}
+		root := f
+		for root.Parent() != nil {
+			root = root.Parent()
+		}
+		if root.Pkg == nil || (root.Pkg.Pkg.Path() != modPath && root.Pkg.Pkg.Path() != modPath+"/pkg/render") {
+			continue
+		}
+		n, bad, pos := check(f)
+		if n == 0 {
+			continue
+		}
+		total += n
+		if bad == "" {
+			pos = f.Pos()
+		}
+		r.Check(rule, FuncName(f)+":announced length", pos, bad == "", map[bool]string{true: "the announced length is len() of the data in hand", false: bad + ": a reader that was partly consumed, a file that changed, a wrapped reader — the announced length differs from the body and the client cannot read the response back"}[bad == ""])
+	}
+	r.Exists(rule, "Content-Length stores in the response helpers", token.NoPos, true, fmt.Sprintf("%d store(s) of Content-Length outside the fixture (net/http computes the length)", total))
+	badF, goodF := w.FnOpt("rux", "zzVerifLenFromSize"), w.FnOpt("rux", "zzVerifLenOfData")
+	if badF == nil || goodF == nil {
+		r.Undecided(rule, "positive fixture", token.NoPos, "the virtual fixture functions zzVerifLen* are not part of the analysed program")
+		return
+	}
+	_, b1, _ := check(badF)
+	_, b2, _ := check(goodF)
+	r.Check(rule, "fixture:length from Size() is reported", token.NoPos, b1 != "", "the rule recognises a length taken from the reader's total size")
+	r.Check(rule, "fixture:length from len(data) is accepted", token.NoPos, b2 == "", "the rule accepts strconv.Itoa(len(data)) ("+b2+")")
+}
 
 // inRecursion: g calls itself directly.
 func inRecursion(g *ssa.Function) bool {
